@@ -345,10 +345,14 @@ func (e *Emitter) rangeAssume(term string, t types.Type) string {
 	if lo, hi, ok := intRange(t); ok {
 		return fmt.Sprintf("(and (<= %s %s) (<= %s %s))", lo, term, term, hi)
 	}
-	switch t.Underlying().(type) {
+	switch u := t.Underlying().(type) {
 	case *types.Slice:
-		// slice headers hold Go ints; an array never exceeds the address space
-		return fmt.Sprintf("(and (<= 0 (s.off %s)) (<= 0 (s.len %s)) (<= (s.len %s) (s.cap %s)) (<= (+ (s.off %s) (s.cap %s)) 281474976710656))", term, term, term, term, term, term)
+		// slice headers hold Go ints; an array never exceeds what the allocator hands out (2^48 bytes)
+		esz := types.SizesFor("gc", "amd64").Sizeof(u.Elem())
+		if esz < 1 {
+			esz = 1
+		}
+		return fmt.Sprintf("(and (<= 0 (s.off %s)) (<= 0 (s.len %s)) (<= (s.len %s) (s.cap %s)) (<= (+ (s.off %s) (s.cap %s)) %d) (=> (> (s.cap %s) 0) (not (= (s.arr %s) nilarr))))", term, term, term, term, term, term, int64(281474976710656)/esz, term, term)
 	case *types.Interface:
 		// the dynamic type implements the static interface type
 		return e.implementsTerm(fmt.Sprintf("(tagof %s)", term), t, true)
